@@ -9,7 +9,7 @@ for p in "$@"; do
   out=$(cd /verif && ./check $p 2>&1 | grep -E "VIOLATION|^C[0-9]+ tier" | cut -c1-400 | tr '\n' ' ')
   echo "seed $id: $p => $out"
 done
-git -C /repo checkout -- .
+git -C /repo apply -R /verif/seeded/$id/patch.diff 2>/dev/null; git -C /repo checkout -- .
 (cd /verif/harness && bin/extract >/dev/null; go build -tags verif -o bin/vcheck ./cmd/vcheck; cd /verif/lean && lake build driver >/dev/null 2>&1)
 (cd /verif && git checkout -q -- evidence/ 2>/dev/null)
 git -C /repo status --short
